@@ -27,12 +27,12 @@ package io
 //@ template decwf
 //@   requires dec != nil && 0 <= dec.head && dec.head <= dec.tail && dec.tail <= len(dec.buf)
 //@   requires dec.reader != nil ==> ghost.rpos[ival(dec.reader)] >= dec.tail &&
-//@       forall(i, dec.head, dec.tail, dec.buf[i] == ghost.rstream[ival(dec.reader)][ghost.rpos[ival(dec.reader)] - dec.tail + i])
+//@       forall(j, off(dec.buf) + dec.head, off(dec.buf) + dec.tail, mem(dec.buf, j) == ghost.rstream[ival(dec.reader)][ghost.rpos[ival(dec.reader)] - dec.tail - off(dec.buf) + j])
 //@   requires [reader_mode_buffer_has_room] dec.reader != nil ==> dec.buf == nil || len(dec.buf) > 0
 //@   stable dec.reader
 //@   ensures [window_well_formed] 0 <= dec.head && dec.head <= dec.tail && dec.tail <= len(dec.buf)
 //@   ensures [window_mirrors_the_stream] dec.reader != nil ==> ghost.rpos[ival(dec.reader)] >= dec.tail &&
-//@       forall(i, dec.head, dec.tail, dec.buf[i] == ghost.rstream[ival(dec.reader)][ghost.rpos[ival(dec.reader)] - dec.tail + i])
+//@       forall(j, off(dec.buf) + dec.head, off(dec.buf) + dec.tail, mem(dec.buf, j) == ghost.rstream[ival(dec.reader)][ghost.rpos[ival(dec.reader)] - dec.tail - off(dec.buf) + j])
 //@   ensures [reader_mode_buffer_has_room] dec.reader != nil ==> dec.buf == nil || len(dec.buf) > 0
 //@   ensures [error_is_sticky] old(dec.Error) != nil ==> dec.Error != nil
 //@   ensures [memory_input_is_never_written] dec.reader == nil ==> same(dec.buf, old(dec.buf)) && dec.tail == old(dec.tail)
@@ -52,7 +52,7 @@ package io
 //@   ensures [memory_mode_is_end_of_input] dec.reader == nil ==> !result && dec.head == dec.tail && dec.tail == old(dec.tail) && dec.Error != nil && same(dec.buf, old(dec.buf))
 //@   ensures [refill_continues_the_stream] dec.reader != nil && result ==> dec.head == 0 && 0 < dec.tail && dec.tail <= len(dec.buf) &&
 //@       ghost.rpos[ival(dec.reader)] == old(ghost.rpos[ival(dec.reader)]) + dec.tail &&
-//@       forall(i, 0, dec.tail, dec.buf[i] == ghost.rstream[ival(dec.reader)][old(ghost.rpos[ival(dec.reader)]) + i])
+//@       forall(j, off(dec.buf), off(dec.buf) + dec.tail, mem(dec.buf, j) == ghost.rstream[ival(dec.reader)][old(ghost.rpos[ival(dec.reader)]) - off(dec.buf) + j])
 //@   ensures [failed_refill_is_an_error] dec.reader != nil && !result ==> dec.head == 0 && dec.tail == 0 && dec.Error != nil &&
 //@       ghost.rpos[ival(dec.reader)] == old(ghost.rpos[ival(dec.reader)])
 //@   ensures [error_is_sticky] old(dec.Error) != nil ==> dec.Error != nil
@@ -97,8 +97,8 @@ package io
 //@   loop 1 invariant dec.reader == nil ==> same(dec.buf, old(dec.buf)) && dec.tail == old(dec.tail)
 //@   loop 1 invariant old(dec.Error) != nil ==> dec.Error != nil
 //@   loop 1 invariant arr(dec.buf) == old(arr(dec.buf)) || isnew(arr(dec.buf))
-//@   loop 1 invariant dec.reader != nil ==> forall(i, 0, len(data), data[i] == ghost.rstream[ival(dec.reader)][lp0 + i])
-//@   ensures [stream_content] dec.reader != nil ==> forall(i, 0, len(data), data[i] == ghost.rstream[ival(dec.reader)][lp0 + i])
+//@   loop 1 invariant dec.reader != nil ==> forall(j, off(data), off(data) + len(data), mem(data, j) == ghost.rstream[ival(dec.reader)][lp0 - off(data) + j])
+//@   ensures [stream_content] dec.reader != nil ==> forall(j, off(data), off(data) + len(data), mem(data, j) == ghost.rstream[ival(dec.reader)][lp0 - off(data) + j])
 //@   ensures [memory_content] dec.reader == nil ==> forall(i, 0, len(data), data[i] == old(dec.buf[dec.head + i]))
 //@   ensures [never_more_than_asked] len(data) <= n0 || (n0 < 0 && len(data) == 0)
 //@   ensures [short_only_with_error] len(data) < n0 ==> dec.Error != nil
